@@ -191,11 +191,38 @@ static void check_keyset(const TFheGateBootstrappingParameterSet *gb, const std:
                 double sigma = gb->in_out_params->alpha_min * 4294967296.0, m = (double) nz.size(), expected = sigma > 0 ? m * (m - 1) / 2 / (2 * sigma * sqrt(M_PI)) : 0;
                 out.evaluations++;
                 out.stat(J().s("kind", "noise-repeats").s("config", cfg).u("rows", nz.size()).d("equal_noise_pairs", pairs).d("expected_by_chance", expected));
+                { double a1 = 0, a2 = 0; for (int32_t v: nz) { a1 += v; a2 += (double) v * v; } double mean = nz.empty() ? 0 : a1 / m, sd = nz.empty() ? 0 : sqrt(std::max(0.0, a2 / m - mean * mean));
+                  out.evaluations++;
+                  if (sigma >= 4 && nz.size() >= 1000 && sd < sigma / 2)
+                      out.viol("cloud:key-switching-rows-carry-too-little-noise", J().s("config", cfg).u("rows", nz.size()).d("measured_stdev_units", sd).d("configured_stdev_units", sigma)); }
                 if (sigma >= 64 && nz.size() >= 1000 && pairs > 3 * expected + 8 * sqrt(expected) + 20)
                     out.viol("cloud:key-switching-rows-share-noise-values", J().s("config", cfg).u("rows", nz.size()).d("equal_noise_pairs", pairs).d("expected_by_chance", expected)); }
               out.evaluations++;
               if (rows2 >= 64 && exact > rows2 / 2 && gb->in_out_params->alpha_min >= ldexp(1., -30))
                   out.viol("cloud:key-switching-rows-carry-no-noise", J().s("config", cfg).u("rows_examined", rows2).u("rows_with_exactly_zero_noise", exact).d("configured_stdev", gb->in_out_params->alpha_min)); }
+            // the bootstrapping rows as well: with the ring key, the phase of row (i, blk, j) minus its plaintext (bit*h_j on
+            // component blk) is the row's noise polynomial; rows without noise are exact linear equations in the ring key.
+            // Up to 96 rows spread over the whole section, every coefficient; exact negacyclic arithmetic over the key's support
+            { const double sigma_bk = gb->tgsw_params->tlwe_params->alpha_min * 4294967296.0;
+              uint64_t total_rows = (uint64_t) n * kpl, step = total_rows > 96 ? total_rows / 96 : 1, rows3 = 0, zero_rows = 0, coefs3 = 0; double s1 = 0, s2 = 0;
+              std::vector<std::vector<int>> supp(k); for (int q = 0; q < k; q++) for (int c = 0; c < N; c++) if (sk->tgsw_key->tlwe_key.key[q].coefs[c]) supp[q].push_back(c);
+              std::vector<U> ph(N); std::vector<int32_t> a(N);
+              for (uint64_t r = (uint64_t) (rng.below(step ? step : 1)); r < total_rows; r += step) {
+                  int i = (int) (r / kpl), blk = (int) ((r % kpl) / l), j = (int) (r % l); U mu = (U) sk->lwe_key->key[i] * (U) gb->tgsw_params->h[j];
+                  memcpy(ph.data(), bkb + (r * (k + 1) + k) * N * 4, 4 * N);
+                  for (int q = 0; q < k; q++) { memcpy(a.data(), bkb + (r * (k + 1) + q) * N * 4, 4 * N);
+                      for (int sc: supp[q]) { for (int c = 0; c + sc < N; c++) ph[c + sc] -= (U) a[c]; for (int c = N - sc; c < N; c++) ph[c + sc - N] += (U) a[c]; } }
+                  bool all_zero = true;
+                  for (int c = 0; c < N; c++) { U m = blk == k ? (c == 0 ? mu : 0) : (U) 0 - mu * (U) sk->tgsw_key->tlwe_key.key[blk].coefs[c];
+                      double e = (double) (int32_t) (ph[c] - m); if (e != 0) all_zero = false; s1 += e; s2 += e * e; coefs3++; }
+                  rows3++; if (all_zero) zero_rows++;
+              }
+              double mean = coefs3 ? s1 / coefs3 : 0, sd = coefs3 ? sqrt(std::max(0.0, s2 / coefs3 - mean * mean)) : 0;
+              out.evaluations++;
+              out.stat(J().s("kind", "bootstrapping-row-noise").s("config", cfg).u("rows_examined", rows3).u("coefficients", coefs3).u("rows_with_zero_noise_polynomial", zero_rows)
+                           .d("measured_stdev_units", sd).d("configured_stdev_units", sigma_bk));
+              if (rows3 >= 8 && coefs3 >= 512 && sigma_bk >= 4 && (sd < sigma_bk / 2 || zero_rows * 4 > rows3))
+                  out.viol("cloud:bootstrapping-rows-carry-no-noise", J().s("config", cfg).u("rows_examined", rows3).u("rows_with_zero_noise_polynomial", zero_rows).d("measured_stdev_units", sd).d("configured_stdev_units", sigma_bk)); }
             // chance level 2^-9 per row; alarm when more than 2 % + 8 standard errors of the rows agree
             auto too_many = [](uint64_t hit, uint64_t rows) { double p = 1.0 / 512; return rows >= 64 && hit > 0.02 * rows + rows * p + 8 * sqrt(rows * p); };
             out.evaluations += 2;
